@@ -29,6 +29,8 @@ def jobs(tier):
             for g in ['temp', 'cont prefix', 'cont bare', 'run', 'tag A']:
                 js.append({'name': 'build-clean 3 lines %s/%s CRLF' % (f, g), 'harness': (H, 'h_clean'),
                            'params': {'nlines': 3, 'menu_name': 'small', 'fixed': [f, g], 'history': 'build-clean', 'le_choices': (b'\r\n',)}})
+    from . import project
+    js += project.jobs('C07', tier)
     return js
 
 
